@@ -521,6 +521,8 @@ func (fc *fctx) ret(s *ast.ReturnStmt) string {
 			default:
 				v = "None"
 			}
+		} else if t.kindOf(want) == kSuiteI && fc.kind(r) == kSuite {
+			v = "(Some " + v + ")" // a value stored in the interface
 		}
 		vals = append(vals, v)
 	}
